@@ -2,7 +2,8 @@
    Only the property theorems; proofs in Proofs/TwowayProofs.v and by computation on the
    regenerated command table. *)
 From Coq Require Import String.
-From StgV Require Import Model.Stack Model.DiscardSpec Gen.CmdTable Proofs.TwowayProofs.
+From StgV Require Import Model.Stack Model.Cmd Model.StackSpec Model.CmdSpec Model.DiscardSpec Gen.CmdTable
+  Proofs.TwowayProofs Proofs.RefreshProofs.
 
 (* the check-out of another tree (git read-tree -m -u, as modelled) either refuses - then
    nothing is touched - or keeps every locally modified file exactly as it is *)
@@ -18,6 +19,35 @@ Theorem C10_twoway_keeps_dirty_files :
            i <> h -> x = i.
 Proof. exact twoway_keeps_dirty_files. Qed.
 Print Assumptions C10_twoway_keeps_dirty_files.
+
+(* "the command ... completes with those contents intact (as with ... refresh ...)": a refresh
+   of the top patch that succeeds leaves the work tree exactly as it was: everything that was
+   uncommitted is now in the patch, nothing was reverted or merged away *)
+Theorem C10_refresh_keeps_worktree :
+  forall lower_s, LowerOK lower_s ->
+  forall w w' s pn,
+    Inv w -> w_stack w <> None -> cur_state w = Some s ->
+    refresh_target s None = Some pn -> In pn (s_applied s) ->
+    step lower_s w (CRefresh None) = (w', X0) ->
+    w_wt w' = w_wt w.
+Proof. exact refresh_keeps_worktree_top. Qed.
+Print Assumptions C10_refresh_keeps_worktree.
+
+(* ... and the same statement for `stg refresh -p <applied patch further down>` is FALSE of the
+   faithful model (known finding F43, replayed on the implementation by
+   corpus/hist-f43-refresh-p-overridden.json): the patches above are pushed back onto the refreshed
+   patch, and one that sets the region back to an older content applies without any conflict
+   (another becomes empty): exit status 0, and the work-tree file no longer has what the user had
+   written - the change survives only inside the refreshed patch *)
+Theorem C10_refresh_p_keeps_worktree_refuted :
+  ~ (forall lower_s, LowerOK lower_s ->
+     forall w p w' s pn,
+       Inv w -> w_stack w <> None -> cur_state w = Some s ->
+       refresh_target s p = Some pn -> In pn (s_applied s) ->
+       step lower_s w (CRefresh p) = (w', X0) ->
+       w_wt w' = w_wt w).
+Proof. exact refresh_keeps_worktree_refuted. Qed.
+Print Assumptions C10_refresh_p_keeps_worktree_refuted.
 
 (* --- ties to the current source --- *)
 
